@@ -17,6 +17,7 @@ type ProcCheck struct {
 	MaxRunsQuick int
 	Level        string
 	Assumptions  []string
+	Harvest      bool // also validate the traces harvested from the repository's own test-suite (E6)
 }
 
 func procCfg(dev, scenarios string, crashes int, emit string, invs []string) string {
@@ -103,6 +104,16 @@ func (c *ProcCheck) Run(e *Env) (*Outcome, *Evidence, error) {
 	if err != nil {
 		return nil, nil, err
 	}
+	if c.Harvest {
+		hf, hs, err := e.harvest()
+		if err != nil {
+			return nil, nil, err
+		}
+		fails = append(fails, hf...)
+		cov["e6_harvest"] = map[string]any{"hook_records": hs.Records, "processes": hs.Processes, "stores": hs.Stores,
+			"suite_passed_with_hooks": hs.SuiteOK, "wall_s": hs.Wall,
+			"checked": "per-process sync-point order vs the ErgoProc parking automaton, mutual exclusion per store, every write inside a held lock (spec/ErgoHooks.tla)"}
+	}
 	findings, err := loadFindings()
 	if err != nil {
 		return nil, nil, err
@@ -145,7 +156,7 @@ func init() {
 		return &ProcCheck{Prop: "C02", Scenarios: "PairScenarios", MaxCrashes: 0,
 			IdealInvs:    []string{"Serializable", "NeverBricked"},
 			Only:         []string{"C02_serial", "C02_wholelines", "C02_nowait", "C02_busy_fast", "C07_final"},
-			MaxRunsQuick: 2000}
+			MaxRunsQuick: 2000, Harvest: true}
 	}
 	registry["C13"] = func() Check {
 		return &ProcCheck{Prop: "C13", Scenarios: "ReaderScenarios", MaxCrashes: 1,
